@@ -327,10 +327,6 @@ def g_cpf(rng, n=None):
     cpf = dd()
     n = rng.choice([0, 1, 2, 2, 3, 4]) if n is None else n
     items = [g_item(rng) for _ in range(n)]
-    # an item of unrecognised type is only parseable in last position (its parser consumes the rest)
-    for k, it in enumerate(items[:-1]):
-        if it.type_id not in (0, 0xb2, 0xa1, 0xb1, 0x100, 0x0c, 0x01):
-            items[k] = dd({"type_id": 0})
     cpf.item = items
     return cpf
 
